@@ -35,11 +35,22 @@ def compile_program(paths, order, lang, outdir, **kw):
     return res
 
 
-def cli(args, cwd=None, env=None, timeout=60):
-    """Runs the bitproto CLI of the working tree in a fresh process."""
-    cmd = [common.PY, "-m", "bitproto._main"] + list(args)
-    p = subprocess.run(cmd, cwd=cwd, env=common.repo_env(env), capture_output=True, text=True,
-                       timeout=timeout)
+CLI_CPU_LIMIT_S = 60
+
+
+def cli(args, cwd=None, env=None, timeout=1800):
+    """Runs the bitproto CLI of the working tree in a fresh process.
+
+    The child may use CLI_CPU_LIMIT_S seconds of CPU time (a child that exceeds it is killed by SIGXCPU and
+    reported with exit status -24: it hangs); the wall-clock timeout is a backstop far above that and
+    raises, so that load on the machine never becomes an observation."""
+    cmd = ["/bin/sh", "-c", 'ulimit -t %d; exec "$@"' % CLI_CPU_LIMIT_S, "sh",
+           common.PY, "-m", "bitproto._main"] + list(args)
+    try:
+        p = subprocess.run(cmd, cwd=cwd, env=common.repo_env(env), capture_output=True, text=True,
+                           timeout=timeout)
+    except subprocess.TimeoutExpired:
+        raise common.MachineryError("bitproto %s: no result within %ss of wall time" % (" ".join(args), timeout))
     return p.returncode, p.stdout, p.stderr
 
 
